@@ -84,6 +84,8 @@ def run_case(args):
         # in another case, or not naming the host at all, is the same validation request
         canon = case["canon"]
         mixed = "".join(c.upper() if i % 2 else c for i, c in enumerate(canon))
+        # ... and so is a client that speaks TLS 1.2 at most (RFC 8737 asks for "TLS 1.2 or higher")
+        ev.append({"e": "Tls", "offer": [tacdlib.ACME], "res": t.tls([tacdlib.ACME], sni=canon, max12=True), "validation": False, "tls": "1.2 at most"})
         for sni in (canon.upper(), mixed, None):
             ev.append({"e": "Tls", "offer": [tacdlib.ACME], "res": t.tls([tacdlib.ACME], sni=sni), "validation": False, "sni": sni or "absent"})
     finally:
